@@ -100,7 +100,8 @@ class Ctx:
             k = kn.get((v['rule'], v['key']))
             (listed if k else new).append(v)
         # a known finding counts as discharged-by-triage for bookkeeping but is reported
-        rep_dir = os.path.join(VERIF, 'reports', self.pid)
+        OUT = os.environ.get('VCHECK_OUT', VERIF)   # self-tests on seeded copies write their reports elsewhere
+        rep_dir = os.path.join(OUT, 'reports', self.pid)
         os.makedirs(rep_dir, exist_ok=True)
         for f in os.listdir(rep_dir):
             if f.endswith('.json'):
@@ -149,8 +150,8 @@ class Ctx:
             'wall_s': round(wall, 3),
             'violations': len(new),
         }
-        os.makedirs(os.path.join(VERIF, 'evidence'), exist_ok=True)
-        with open(os.path.join(VERIF, 'evidence', self.pid + '.json'), 'w') as f:
+        os.makedirs(os.path.join(OUT, 'evidence'), exist_ok=True)
+        with open(os.path.join(OUT, 'evidence', self.pid + '.json'), 'w') as f:
             json.dump(ev, f, indent=1, sort_keys=True)
         print('%s tier=%s: %d obligations, %d discharged, %d known, %d inconclusive, %d violations (%.1fs)' % (
             self.pid, self.tier, self.obligations, self.discharged, len(listed), len(self.inconclusive), len(new), wall))
